@@ -205,7 +205,8 @@ class DdeArm(Arm):
             spec, pairs = add_past_terms(draw, gen.uniquify_init(base), mult_rate=3)
             rm = RefModel(spec)
             fl = st.floats(-1.5, 1.5, allow_nan=False).map(lambda v: round(v, 3))
-            return {"spec": spec, "cfg": {"vectorize": False, "dt": 0.01, "sparse": draw(st.sampled_from([False, False, True]))},
+            return {"spec": spec, "cfg": {"vectorize": False, "dt": 0.01, "sparse": draw(st.sampled_from([False, False, True])),
+                                          "fixed": draw(st.sampled_from([False, False, True]))},
                     "hist": [draw(fl), draw(fl), draw(fl), draw(st.sampled_from([1.0, 2.0]))],
                     "ts": draw(st.lists(st.floats(0.5, 3.0, allow_nan=False).map(lambda v: round(v, 2)), min_size=2, max_size=2)),
                     "ys": draw(gen.probes_strategy(len(rm.state_paths), n=2, lo=-1.5, hi=1.5))}
@@ -238,7 +239,8 @@ class DdeArm(Arm):
             return res
         delays = sorted(delays)
         try:
-            c = compile_vf(spec, vectorize=False, step_size=0.01, adaptive=True)
+            fixed = bool(case["cfg"].get("fixed"))
+            c = compile_vf(spec, vectorize=False, step_size=0.01, adaptive=not fixed)
             pos = c.positions()
             if not c.dde or set(pos) != set(sp):
                 res.rejected = "run function has no hist argument / layout incomplete (C10/C01)"
@@ -257,16 +259,23 @@ class DdeArm(Arm):
             lab.append("sparse")
             if len(delays) >= 2:
                 lab.append("sparse_two_delays")
+        if fixed:
+            lab.append("fixed_step")
         res.labels = lab
         res.nontrivial = len(delays) >= 2 or any(pos[v][0] != 0 for v in dvars)
         try:
-            jf, jargs, jnames, jsvm = get_jac(spec, 0.01, sparse=bool(case["cfg"].get("sparse")), solver="scipy")
+            jf, jargs, jnames, jsvm = get_jac(spec, 0.01, sparse=bool(case["cfg"].get("sparse")),
+                                              solver="euler" if fixed else "scipy")
         except HarnessError:
             raise
         except Exception as e:
             res.violate(exc_bucket("get_jacobian_func-raises", e), f"delays {delays}: {short_exc(e)}")
             return res
         for tt, yvals in zip(case["ts"], case["ys"]):
+            if fixed:
+                # functions for fixed-step solvers take the step counter: both must read the history at t*dt - tau
+                tt = float(int(abs(tt) * 20) + 30)
+            t_hist = tt * 0.01 if fixed else tt
             y = np.zeros(c.n)
             for k, v in zip(sp, yvals):
                 y[pos[k][0]] = v
@@ -279,7 +288,7 @@ class DdeArm(Arm):
                 def f(delta):
                     def h(tq):
                         v = Hist(c.n, case["hist"])(tq)
-                        return v + delta if abs(tq - (tt - tau)) < 1e-9 else v
+                        return v + delta if abs(tq - (t_hist - tau)) < 1e-9 else v
                     return c.call(tt, y, hist=h)
                 return f
             try:
